@@ -5,12 +5,25 @@ V = os.path.dirname(os.path.dirname(os.path.abspath(__file__)))
 props = [json.loads(l) for l in open(os.path.join(V, "properties.jsonl"))]
 ids = [p["id"] for p in props]
 
+E1NOTE = "Trusted: x/net/html tokenizer/ParseFragment as the observer; the harness's spec view (documented meaning of builder calls, internal/spec). Nothing is claimed outside the stated alphabets, bounds and policy family."
+def e1(ref, text, note=E1NOTE, tech="bounded-exhaustive enumeration of inputs x builder-assembled policies on the real implementation, independent oracle per execution"):
+    return ("model_checking", tech, "E1", ref, text, note)
 CHECKS = {
- # id: (level, technique, engine, design_ref, text, note)
- "C01": ("model_checking", "bounded-exhaustive enumeration of input fragment/byte sequences x builder-assembled policies on the real Sanitize; tokenizer + tree-builder oracle",
-         "E1", "DESIGN.md §4 C01",
-         "Every fragment sequence (length<=3 over 93 fragments, <=4 over the 29-fragment core) and every byte string (<=5 over 22 bytes) is executed against 14 named policies and every <=2-subset of a 17-call builder alphabet; each output is re-tokenised and re-parsed in 8 flow contexts and every tag/comment/doctype found must be allowlisted. Exhaustive within those bounds; thorough deepens every bound by one.",
-         "Trusted: x/net/html tokenizer/ParseFragment as the observer; the harness's spec view (documented meaning of builder calls). Nothing claimed outside the alphabets and bounds."),
+ "C01": e1("DESIGN.md §4 C01", "Every fragment sequence (length<=3 over 93 fragments, <=4 over the 29-fragment core) and every byte string (<=5 over 22 bytes) is executed against 14 named policies and every <=2-subset of a 17-call builder alphabet; each output is re-tokenised and re-parsed in 8 flow contexts and every tag/comment/doctype found must be allowlisted. Exhaustive within those bounds; thorough deepens every bound by one."),
+ "C02": e1("DESIGN.md §4 C02", "Every attribute list (<=2 on all of 638 generated policies crossing rule scope x value pattern x overlap x AllowNoAttrs x data attributes, one deeper on a fifth of them) over a 24-attribute alphabet on six element classes, start and self-closing; every surviving attribute must be justified by a rule of the spec view, a well-formed data-* name, governed style or a forced attribute; bare tags must be bare-allowed."),
+ "C03": e1("DESIGN.md §4 C03", "Every URL string (<=3 fragments over a 46-fragment URL alphabet, <=4 bytes over 13) in each of the 17 element/attribute positions x scheme allowlist / relative / custom check / scheme regexp / rewriter variants; every surviving value is classified by a WHATWG-style scheme extractor that does not use net/url."),
+ "C04": e1("DESIGN.md §4 C04", "Hostile sweep (206 elements x 249 attributes x 7 value classes, XSS alphabet sequences <=3) against StrictPolicy and UGCPolicy judged on the DOM in 8 containers against the harness's transcription of the documented UGC vocabulary plus an independent blacklist; converse: ~61k generated conforming documents must come back unchanged apart from rel=nofollow."),
+ "C05": e1("DESIGN.md §4 C05", "Every sequence <=3 over 47 script/style forms with uniquely numbered text markers (<=4 over a 20-fragment core) and byte strings glued to the literal names, against 10 policies that try to allow script/style without AllowUnsafe; no script/style tag or element in the output and no marker the tree builder places inside script/style of the input survives."),
+ "C06": e1("DESIGN.md §4 C06", "Every sequence <=3 over a 61-fragment text-heavy alphabet and byte strings <=5, against every policy of the family in the property's class with and without space insertion; exact two-pointer alignment of re-tokenised input and output (characters unchanged, tags kept or replaced by nothing / one space, no new tags)."),
+ "C07": e1("DESIGN.md §4 C07", "For 120 generated overlapping-rule policies (every unordered pair of rule shapes over scope x pattern) and 11 named ones, every document their own vocabulary generates (elements x <=2 attributes x witness values x nesting depth 2, ~2.5M documents) must be returned byte for byte modulo forced attributes."),
+ "C10": e1("DESIGN.md §4 C10", "Every sequence of <=3 declarations over a 38-declaration alphabet (incl. an escape alphabet) on four element classes against 42 style rule sets (scope x matcher kind x style attribute admitted or not); output style re-split the way a browser does, each declaration justified on lower(css-decode(value)); exact expected output for escape-free inputs."),
+ "C11": e1("DESIGN.md §4 C11", "a/area/link x every attribute list <=3 over 22 href/rel/target/other attributes x all 32 link-option combinations x rel admitted (no pattern / SpaceSeparatedTokens / not) x target admitted or not; requirements judged on the first rel/target as a browser reads duplicates, tokens compared ASCII case-insensitively."),
+ "C12": e1("DESIGN.md §4 C12", "Five media elements x every attribute list <=4 over crossorigin forms, iframe x every list <=3 over sandbox token sequences, x crossorigin/sandbox admitted or not x every sandbox subset of size <=2 plus the full set (thorough: all 16384 subsets)."),
+ "C18": e1("DESIGN.md §4 C18", "For each of the 213 default handlers: every pool token it accepts and every accepted 2-3 token combination, with each of 14 hostile fragments inserted at every byte position, glued at both ends and substituted; the handler must reject all (~10M handler calls), the unknown-property handler rejects the pool, and Sanitize end to end removes a per-position subset.",
+          "Trusted: the harness's hostile-construct scanner and CSS escape decoder. Vocabulary pool is extracted from css/handlers.go's string literals at check time plus a fixed list of numeric/functional forms."),
+ "C19": e1("DESIGN.md §4 C19", "Per exported matcher: all strings up to length 4-6 over its own alphabet plus 11 HTML-significant characters, and all single and double edits of every documented example (82M strings); a match must be accepted by a hand-written recogniser of the documented form, and every documented example must match.",
+          "Trusted: the recognisers in internal/checks/c19.go."),
+ "C20": e1("DESIGN.md §4 C20", "Fragment sequences (<=3 over F, <=4 core), URL strings in three positions, link attribute lists <=3, against every policy of the family inside the property's class plus Strict and UGC (with the del/ins proviso): Sanitize(Sanitize(x)) == Sanitize(x). One known finding (rel/target order) is listed in known_findings.jsonl."),
 }
 
 built = [i for i in ids if i in CHECKS and os.environ.get("ONLY", i) ]
